@@ -267,6 +267,38 @@ let in_idl_m (i : id) (l : id list) : bool = List.exists (fun j -> id_eqb i j) l
 let delta_of_message (m : message) : delta option =
   match m with SynAck (_, x) -> Some x | Ack x -> Some x | _ -> None
 
+(* C14, per member ("whenever the sender's copy is ahead the delta is non-empty, space permitting"):
+   a BARE node delta — header only: no key-value, no SetMaxVersion — is what the MTU loop leaves when
+   the member's first operation no longer fits.  Here it is refuted from above: [content] over-
+   approximates the uncompressed size of everything the delta carries; if even content + the
+   member's first operation (its first stale key-value, or the 9-byte SetMaxVersion when it has
+   none), cut into blocks with their 3-byte metas, stays within the budget, then the serializer's
+   own upper bound never exceeded it and the operation was withheld for another reason.
+   (Sizes are computed with the TRUE value lengths: snapshots keep long values abbreviated.) *)
+let kv_op_len (k : bytes) (v : bytes) : int = 14 + List.length k + val_len v
+let c14_bare_ok (nodes : nmap) (mtu : int) (x : delta) : bool =
+  let thr = max 1 (min (min (int_of_n p_BLOCK_THRESHOLD) (int_of_n p_BLOCK_THRESHOLD_SER)) mtu) in
+  let bound c = c + 3 * (c / thr + 1) + 1 in
+  let content =
+    List.fold_left
+      (fun acc nd ->
+        acc + int_of_n (op_len (OpNode (nd.d_id, nd.d_gc, nd.d_from))) + 9
+        + List.fold_left (fun a m -> a + kv_op_len m.m_key m.m_val) 0 nd.d_kvs)
+      0 x.nds in
+  List.for_all
+    (fun nd ->
+      if nd.d_kvs <> [] || not (neq nd.d_max N0) then true
+      else
+        match nm_get nd.d_id nodes with
+        | None -> true
+        | Some c ->
+            let need =
+              match stale_sorted c nd.d_from with
+              | (k, v) :: _ -> kv_op_len k v.v_val
+              | [] -> 9 in
+            bound (content + need) > mtu)
+    x.nds
+
 (* ---------- entry points called by the driver ---------- *)
 let on_join (idx : int) (info : nodeinfo) (obs : string) : unit =
   Hashtbl.replace infos idx info;
@@ -445,6 +477,8 @@ let on_proc (idx : int) (msg : message) (obs : string) : unit =
                      let mtu = match r with
                        | SynAck (dgb, _) -> N.sub p_MAX_UDP (N.add p_RESERVE_SYNACK (digest_len dgb))
                        | _ -> N.sub p_MAX_UDP p_RESERVE_ACK in
+                     check "C14" (c14_bare_ok o.snap.nodes (int_of_n mtu) x)
+                       "a member the sender is ahead on got a bare header (no key-value, no SetMaxVersion) although its first operation would have fitted the budget";
                      check "C14" (c14_offer_ok o.snap.nodes dg o.snap.sched mtu x)
                        "the sender is ahead of the peer's digest on a member it does not quarantine and there is room for that member's header and first operation, but the reply's delta is empty"
                  | _ -> ())
@@ -714,6 +748,8 @@ let on_delta ?dg (idx : int) (mtu : int) (sched : id list) (obs : string) : unit
                "a computed node delta does not start where the sender's reset decision says";
              check "C14" (c14_agree_ok dg s.nodes x)
                "a receiver holding the copy the digest advertised would not take the sender's decision on a computed node delta (reset iff the sender decided to reset; refusal only of an empty node delta)";
+             check "C14" (c14_bare_ok s.nodes mtu x)
+               "a member the sender is ahead on got a bare header (no key-value, no SetMaxVersion) although its first operation would have fitted the budget";
              check "C14" (c14_offer_ok s.nodes dg sched (n_of_int mtu) x)
                "the sender is ahead of the digest on a member it does not quarantine and there is room for that member's header and first operation, but the computed delta is empty"
          | None -> ())
